@@ -16,6 +16,18 @@ CLAIMED = {
     "C02": ("exploration",
             "Same simulated world with generated origin responses (status incl. 204/205/304, reason, repeated/mixed-case/hop-by-hop fields, Content-Length/chunked/close-delimited bodies, trailers, illegal bodies on bodiless replies, gzip solicited by proxy or by client, event streams) crossed with client protocol 1.0/1.1, pipelining and Connection: close. A strict client-side parser must consume exactly response k for request k (token attribution), content must equal the origin's, and at scheduler-chosen pause points (network drained, zero simulated time elapsed) the client must already hold every chunk/event the origin has sent.",
             "DESIGN.md 4 C02", "deterministic simulation + strict client-side framing parser, token attribution, quiescence-based incremental-delivery check"),
+    "C04": ("exploration",
+            "Seeded deterministic simulation of the real proxy with every subset of the four access controls, where recorder nodes listen on every address a request could possibly be sent to (origins, deny-listed hosts, loopback/unspecified addresses of the proxy host, upstream proxy). A reference policy model decides which controls fail; the oracle demands the matching status (407 with Basic challenge / 403 / 451), and a taint check over all bytes every node received plus the simulator's dial ledger proves no upstream activity for refused requests; accepted requests must arrive intact even after refused ones on the same connection. The allowed time frame is driven by the simulated clock (jumps between requests, 1 ns around hour boundaries).",
+            "DESIGN.md 4 C04", "deterministic simulation + reference policy model + token/host taint tracking over recorder nodes and dial ledger"),
+    "C05": ("exploration",
+            "Same recorder world: generated configurations (none/static http-https-socks5 upstream/PAC scripts, direct-domains, proxy-localhost, --connect-to lists) and requests (plain both forms, CONNECT, MITM-inner). A routing reference model predicts the node, the listener address after --connect-to, the request form and TLS; the ledger of arrivals must match exactly and the token must be seen by no other party; PAC errors, unparsable entries and unsupported proxy types must fail with no delivery.",
+            "DESIGN.md 4 C05", "deterministic simulation + routing reference model over a ledger of arrivals at recorder nodes"),
+    "C06": ("exploration",
+            "Same recorder world with generated credential tables (exact, *:port, host:*, *:*, overlapping), upstream proxies with/without userinfo or PAC-selected, basic auth on the proxy; every secret is a unique token. For every arrival (after TLS termination, also inside tunnels and SOCKS5 auth) the oracle demands exactly the expected Proxy-Authorization / Authorization under the documented precedence, and raw scans of all received bytes show each secret only at the hop it belongs to.",
+            "DESIGN.md 4 C06", "deterministic simulation + wire-level taint tracking of unique secrets at every node"),
+    "C18": ("exploration",
+            "One or two real proxy instances in the bubble: crafted Via chains against one instance (its element is learnt from what the origin receives), an instance whose upstream is itself, and two instances pointing at each other. Oracle: 400 and no origin contact iff the chain contains the instance's own element; a ledger of proxy-to-proxy connections shows real loops end at the first repetition; non-loops are forwarded with the chain plus one element.",
+            "DESIGN.md 4 C18", "deterministic simulation of one/two chained instances + hop-count ledger"),
     "C03": ("exploration",
             "Seeded deterministic simulation of the real proxy between scripted raw-byte endpoints: every byte of both tunnel directions is a pure function of (stream, offset), so loss, duplication, reordering, truncation, missing EOF and leaked proxy sockets are exact facts; segmentation, interleaving, link capacity (back-pressure), coalescing of head/reply with payload, half-close order and RST faults are drawn from the seed. Right level: the property quantifies over schedules and segmentations, which sampling with replay reaches and tests cannot.",
             "DESIGN.md 4 C03", "deterministic simulation (seeded scheduler over in-memory TCP, fake clock) + byte-stream ledger oracle"),
